@@ -17,7 +17,11 @@
 //  3. request objects through /authorize on both routers with request objects
 //     supported and not: the plain parameters may be replaced (seen in the
 //     journaled CreateAuthRequest argument) only under the conditions of the statement;
-//  4. assertions produced by the library's client helpers must be accepted.
+//  4. assertions produced by the library's client helpers must be accepted;
+//  5. the same endpoints, request objects and helpers on providers with a dynamic
+//     issuer (IssuerFromHost / IssuerFromForwardedOrHost, with and without a path),
+//     one provider driven under two request hosts in sequence: "the provider's
+//     issuer" is the issuer of the request.
 package main
 
 import (
@@ -66,8 +70,9 @@ func main() {
 	nEndpoint := run.N(3000, 60000)
 	nReqObj := run.N(5000, 100000)
 	nInterop := run.N(360, 3600)
+	nDyn := run.N(1800, 36000)
 
-	streams := map[string]func(*ev.Run, int){"direct": directCase, "endpoint": endpointCase, "reqobj": reqObjCase, "interop": interopCase}
+	streams := map[string]func(*ev.Run, int){"direct": directCase, "endpoint": endpointCase, "reqobj": reqObjCase, "interop": interopCase, "dynhost": dynCase}
 	if rc := run.ReplayCase(); rc >= 0 {
 		var w struct {
 			Stream string `json:"stream"`
@@ -84,6 +89,7 @@ func main() {
 		run.Finish()
 	}
 	run.Mandatory(mand...)
+	run.Mandatory(dynMandatory()...)
 	phases := map[string]float64{}
 	phase := func(name string, n int, fn func(*ev.Run, int)) {
 		t := time.Now()
@@ -92,6 +98,7 @@ func main() {
 	}
 	// interop first: its literal samples are the rarest
 	phase("interop", nInterop, interopCase)
+	phase("dynhost", nDyn, dynCase)
 	phase("reqobj", nReqObj, reqObjCase)
 	phase("endpoint", nEndpoint, endpointCase)
 	phase("direct", nDirect, directCase)
@@ -99,6 +106,6 @@ func main() {
 		run.Count("observation_not_judged:object_without_iss_and_client_id_signed_with_a_key_stored_under_the_empty_client_id", "panic: "+pi.Value)
 	}
 	run.Extra("phase_wall_s", phases)
-	run.Extra("cases", map[string]int{"direct": nDirect, "endpoint": nEndpoint, "reqobj": nReqObj, "interop": nInterop})
+	run.Extra("cases", map[string]int{"direct": nDirect, "endpoint": nEndpoint, "reqobj": nReqObj, "interop": nInterop, "dynhost": nDyn})
 	run.Finish()
 }
